@@ -19,6 +19,9 @@ UNIVERSES = {
     'U3xd': ((1, 2, 3, 1), 2, ('b', 'a', 'b', 'e'), False, False),
     'U2x': ((1, 2, 4), 2, ('b', 'a', 'e'), False, False),
     'U3dq': ((1, 2, 1), 2, ('b', 'a', 'c'), False, False),
+    # two-phase universes: structure alphabet to closure, then the attach/full alphabet one step from every state
+    'U4e': ((1, 2, 3, 3), 1, ('b', 'a', 'b', 'c'), False, False),
+    'U4s': ((1, 2, 3, 4), 2, ('b', 'a', 'b', 'a'), False, False),
 }
 
 ATTACH_FAMILIES = {'parent', 'list=', 'list+=', '//', '//1', 'append', 'list.parent=', 'W.tasks.parent=', 'Task()'}
@@ -32,7 +35,8 @@ _CFG = None
 def make_universe(name):
     ids, m, names, links_only, ctor = UNIVERSES[name]
     return core.Universe(name, ids, m, names, links_only=links_only, ctor=ctor,
-                         alphabet='reach' if name in ('U3x', 'U3xd', 'U2x') else 'attach' if name == 'U3dq' else 'full')
+                         alphabet='reach' if name in ('U3x', 'U3xd', 'U2x') else 'attach' if name == 'U3dq' else
+                         'structure' if name in ('U4e', 'U4s') else 'full')
 
 
 def _dup_ids_abs(U, a):
@@ -61,7 +65,7 @@ def _free_root(a, y):
 
 
 class StateInfo:
-    __slots__ = ('viol', 'duplinks', 'wellformed')
+    __slots__ = ('viol', 'duplinks', 'wellformed', 'expandable')
 
 
 def check_state(U, enc, obs, cache):
@@ -72,6 +76,9 @@ def check_state(U, enc, obs, cache):
     si = StateInfo()
     v = core.state_violations(U, obs)
     si.wellformed = not v
+    # states that break only ownership / id-uniqueness clauses (C11, C05) still have terminating getters and are
+    # expanded, so that later consequences are attributed to the property they break; C01-broken states are not
+    si.expandable = not any(p == 'C01' for p, _, _ in v)
     si.duplinks = (not core.obs_has_zombie(obs)) and core.has_duplicate_links(obs)
     if si.wellformed:
         v = v + core.getter_violations(U, obs)
@@ -80,7 +87,7 @@ def check_state(U, enc, obs, cache):
     return si
 
 
-def run_transition(U, enc, pre_obs, pre_abs, op, acc, hist, cache, obs_cache):
+def run_transition(U, enc, pre_obs, pre_abs, op, acc, hist, cache, obs_cache, pre_ok=True):
     """Execute one transition from state enc; report violations into acc; return (post_enc, StateInfo) or None."""
     U.restore(enc)
     fam = op[0]
@@ -150,7 +157,8 @@ def run_transition(U, enc, pre_obs, pre_abs, op, acc, hist, cache, obs_cache):
         for (prop, clause, detail) in si.viol:
             acc.violation(prop, sig(clause), f'after {O.describe(op)}: {detail}', case({'detail': detail}))
     # ---- reference semantics ----------------------------------------------------------------
-    eff, exp_ret = O.effect(U, pre_abs, op)
+    # the reference semantics is defined on well-formed pre-states only
+    eff, exp_ret = O.effect(U, pre_abs, op) if pre_ok else (O.SKIP, None)
     if exc is None:
         if changed:
             acc.count('accepted_changing:' + fam)
@@ -179,7 +187,7 @@ def run_transition(U, enc, pre_obs, pre_abs, op, acc, hist, cache, obs_cache):
                                       f'{O.describe(op)} would duplicate an id and raised {type(exc).__name__}, not RuntimeError',
                                       case())
         # C11 (c): re-attachment of a free detached root must be accepted
-        if fam in ('//1', 'append') and op[1][0] == 'W':
+        if pre_ok and fam in ('//1', 'append') and op[1][0] == 'W':
             y = op[2]
             k = op[1][1]
             if _free_root(pre_abs, y):
@@ -208,22 +216,25 @@ def _expand_chunk(chunk):
             U.restore(enc)
             pre_obs = U.observe()
             pre_abs = core.abstract(pre_obs, U.n, U.m)
+            pre_ok = not core.state_violations(U, pre_obs)
             # self-check of snapshot/restore
             if U.encode() != enc:
                 raise runtime.HarnessError('restore/encode round trip failed')
             for op in ops:
                 if op[0] == 'Task()' and not _pristine(pre_abs, op[1]):
                     continue
-                res = run_transition(U, enc, pre_obs, pre_abs, op, acc, hist, cache, obs_cache)
+                res = run_transition(U, enc, pre_obs, pre_abs, op, acc, hist, cache, obs_cache, pre_ok)
                 if res is None:
                     continue
                 post_enc, si = res
                 if post_enc == enc or post_enc in seen or post_enc in new:
                     continue
-                if not si.wellformed:
+                if not si.expandable:
                     acc.count('pruned_illformed_successors')
                     new[post_enc] = None
                     continue
+                if not si.wellformed:
+                    acc.count('expanded_states_breaking_only_C05_or_C11')
                 if si.duplinks:
                     acc.count('pruned_duplicate_link_states')
                     new[post_enc] = None
@@ -240,7 +251,7 @@ def _expand_chunk(chunk):
     return acc
 
 
-def explore(uname, acc, max_depth=None, state_cap=250000, time_cap=None, collect=False, max_links=None):
+def explore(uname, acc, max_depth=None, state_cap=250000, time_cap=None, collect=False, max_links=None, phase2=None):
     """BFS closure of universe `uname`. Returns dict with states/transitions/closed/depth and, if collect, the states."""
     global _U, _OPS, _SEEN, _CFG
     U = make_universe(uname)
@@ -280,9 +291,28 @@ def explore(uname, acc, max_depth=None, state_cap=250000, time_cap=None, collect
         if len(seen) > state_cap:
             closed = False
             break
+    phase2_transitions = 0
+    if phase2 and closed and not frontier:
+        # phase 2: from every reachable state apply every operation of the richer alphabet once (oracles on each
+        # transition; successors are not expanded further)
+        saved = U.alphabet
+        U.alphabet = phase2
+        ops2 = [o for o in O.alphabet(U) if o not in set(ops)]
+        U.alphabet = saved
+        _OPS = ops2
+        _SEEN = set(seen) | dead
+        t1 = acc.counters['transitions']
+        items = list(seen.items())
+        for r in runtime.pmap(_expand_chunk, runtime.split(items, runtime.n_workers() * 4)):
+            n_new = len(r.extra.pop('new'))
+            acc.merge(r)
+            acc.count('phase2_successors_not_expanded', n_new)
+        phase2_transitions = acc.counters['transitions'] - t1
+        _OPS = ops
     res = {'universe': uname, 'ops_per_state': len(ops), 'states': len(seen), 'dead_states': len(dead),
            'transitions': acc.counters['transitions'] - trans0, 'closed': closed and not frontier,
-           'depth_completed': depth, 'level_sizes': levels, 'unexpanded_frontier': len(frontier)}
+           'depth_completed': depth, 'level_sizes': levels, 'unexpanded_frontier': len(frontier),
+           'phase2_alphabet': phase2, 'phase2_transitions': phase2_transitions}
     if collect:
         res['state_list'] = seen
         res['U'] = U
